@@ -40,6 +40,46 @@ def cow_merge_fns(f):
     return out
 
 
+def reload_rule(f, P, rep, rid):
+    """A slice that is (or may already be) shared through the cache is loaded from the file only when it is
+    not up to date: the backend read into the buffer of a table taken out of the cache (put_into_wmap_with may
+    return an entry another task added, loaded and changed) is dominated by a test of Table::is_update().
+    Reloading an up-to-date slice overwrites acknowledged changes with the stale bytes of the file."""
+    from ..guard import Deps
+    rep.rule(rid, 'a backend read into the buffer of a table obtained from the slice cache is dominated by a test of is_update() of that table')
+    n = 0
+    for b in f.body_list:
+        if '::tests::' in b.path or not b.is_coroutine:
+            continue
+        dp = None
+        for bi, t in b.calls():
+            if not (t.get('fn') or '').endswith('::call_read'):
+                continue
+            dp = dp or Deps(P, b)
+            d = set()
+            for a in t['args']:
+                d |= dp.of_operand(a, (bi, 10 ** 6))
+            fns = {x[1] for x in d if x[0] == 'fn'}
+            if not (any(x.endswith('as_mut_ptr') for x in fns) and any('AsyncLruCache' in x for x in fns)):
+                continue            # not the buffer of a cached table
+            n += 1
+            ok = False
+            for sbi in b.reachable():
+                st = b.blocks[sbi]['term']
+                if st['k'] == 'switch' and sbi != bi and b.dominates(sbi, bi):
+                    sd = dp.of_operand(st['d'], (sbi, 10 ** 6))
+                    if any(x[0] == 'fn' and x[1].endswith('is_update') for x in sd):
+                        ok = True
+            rep.ob(rid, '%s: read into a cached table at %s' % (short(b.path), b.where(bi)), ok,
+                   'dominated by an is_update() test' if ok else 'no is_update() test dominates the read')
+            if not ok:
+                rep.violation(rid, '%s:%s' % (rid, short(b.path)), b.where(bi),
+                              '%s reads from the file into a table taken out of the slice cache without testing is_update(): when '
+                              'another task has added, loaded and changed that slice in the meantime, its acknowledged changes are '
+                              'overwritten with the stale on-disk bytes' % short(b.path))
+    rep.floor('backend reads into cached tables', n, 1)
+
+
 def run(ctx, rep):
     f = ctx.lib
     P = Program(f)
@@ -62,6 +102,7 @@ def run(ctx, rep):
                           '%s applies %s through a slice write guard without deciding it on a value read through that '
                           'guard after acquiring it: a concurrent update made between the earlier look-up and the '
                           'acquisition is overwritten or acted upon twice (%s)' % (fn, mname, why))
+    reload_rule(f, P, rep, 'C06.6')
     # C06.2 / C06.3
     d = LockDomain(P)
     ip = Interp(P, d)
